@@ -755,6 +755,46 @@ func race(c *vk.Ctx) {
 			}
 		}
 	}
+	// conditions with several alternatives and callers that pass different ones at the same time:
+	// In(1, 2) → one-element stub 500, In(3, 4) → 600, default 100; every call must get the result of
+	// the condition its own argument selects
+	for r := 0; r < rounds; r++ {
+		b := mocker.Create()
+		b.Func(t.F).Return(100).In(1, 2).Return(500).In(3, 4).Return(600)
+		want := map[int]int{1: 500, 2: 500, 3: 600, 4: 600, 9: 100}
+		args := []int{1, 2, 3, 4, 9}
+		var wg sync.WaitGroup
+		bad := make([]string, 8)
+		for ti := 0; ti < 8; ti++ {
+			ti := ti
+			wg.Add(1)
+			go func() {
+				defer wg.Done()
+				for k := 0; k < 40; k++ {
+					a := args[(ti+k)%len(args)]
+					msg, p := vk.Try(func() {
+						if v := t.F(a); v != want[a] && bad[ti] == "" {
+							bad[ti] = fmt.Sprintf("In-stub: F(%d) returned %d, the condition it selects returns %d", a, v, want[a])
+						}
+					})
+					if p && bad[ti] == "" {
+						bad[ti] = "panic: " + msg
+					}
+				}
+			}()
+		}
+		wg.Wait()
+		b.Reset()
+		c.Res.Evaluations++
+		c.Res.Traces++
+		c.Res.Transitions += 8 * 40
+		for _, bmsg := range bad {
+			if bmsg != "" {
+				c.Violate("race stub=in class="+sx.Class(bmsg), "free-running callers: "+bmsg, map[string]interface{}{"sub": "race", "stub": "in"})
+				break
+			}
+		}
+	}
 	c.Res.States = 1
 	c.Res.Extra["sampled_side_pass"] = true
 	c.Res.Extra["race_pass"] = "sampled (free-running goroutines under the race detector; precondition check for the explorer, not the decider)"
